@@ -264,11 +264,14 @@ def kindsOk (F : Facts) : Bool :=
     (docCaught kind).all (fun n => caughtBy F (caughtOfKind F kind) ⟨n⟩) &&
     (kind != .call || (caughtOfKind F kind).isEmpty))
 
-/-- the one op character the loop of `_t_eval` exempts from `arg_val`
-    (`if op != '(':`) is exactly the character of the call branch: the recorded
-    `(args, kwargs)` of a call reach `Call` unevaluated, and nothing else does -/
+/-- the op characters the loop of `_t_eval` exempts from `arg_val` (extracted from
+    the guard of `arg = arg_val(target, arg, scope)`) are exactly the characters of
+    the call branch: the recorded `(args, kwargs)` of a call reach `Call`
+    unevaluated, and nothing else does -/
 def callCharOk (F : Facts) : Bool :=
-  F.dispatch.all (fun en => (Kind.ofString en.2.1 == .call) == (en.1 == callChar))
+  F.argShapeOk &&
+  F.dispatch.all (fun en => (Kind.ofString en.2.1 == .call) == F.argExempt.contains en.1) &&
+  F.argExempt.all (fun c => F.dispatch.any (fun en => en.1 == c && Kind.ofString en.2.1 == .call))
 
 def WF (F : Facts) : Bool :=
   noDroppedOp F && kindsOk F && callCharOk F &&
